@@ -40,6 +40,13 @@ def run(ck, tier, seed):
                     if q and ppm == 0.5:
                         continue
                     srcs.append({"font": os.path.join(corpus.F, font), "text": t, "dir": d, "ppm": ppm})
+    # a font whose justification level declares steps larger than one unit (staged from charis)
+    stepfont = corpus.step_justification_font(tmp)
+    if stepfont:
+        for t in ("Hello Mum said the quick brown fox", "a b", "Wide  gaps   here"):
+            for d in (0, 1, 3):
+                for ppm in (0, 12):
+                    srcs.append({"font": stepfont, "text": t, "dir": d, "ppm": ppm})
     sf = os.path.join(tmp, "sources.ndjson")
     open(sf, "w").write("\n".join(json.dumps(s) for s in srcs) + "\n")
     trace = os.path.join(tmp, "trace.ndjson")
